@@ -136,7 +136,15 @@ def paths_reaching(func, target):
     out = []
     for p in func_paths(func):
         for i, ev in enumerate(p.events):
-            if ev[0] == 'stmt' and contains_node(ev[1], target) or ev[0] == 'cond' and contains_node(ev[1], target):
+            hit = False
+            if ev[0] == 'stmt':
+                if isinstance(ev[1], ast.With):
+                    hit = any(contains_node(it.context_expr, target) for it in ev[1].items)   # the body is walked separately
+                else:
+                    hit = contains_node(ev[1], target)
+            elif ev[0] == 'cond':
+                hit = contains_node(ev[1], target)
+            if hit:
                 out.append(Path(p.events[:i], ('at', target)))
                 break
         else:
